@@ -146,10 +146,33 @@ func (ex *Exec) global(g *ssa.Global) *Obj {
 		o.V = ex.zero(elem)
 	}
 	ex.globals[g] = o
+	ex.lazyInit(g)
 	if ex.frozenAll && g.Pkg != nil && strings.HasPrefix(g.Pkg.Pkg.Path(), "github.com/google/go-tdx-guest/") && !strings.Contains(g.Pkg.Pkg.Path(), "/zzvp") {
 		o.Frozen = true
 	}
 	return o
+}
+
+// lazyInit: package-level variables of library packages whose bodies are executed
+// (bytes, strings, io, time, ...) get their initial values from the package's own
+// initialiser, run on first access to any of its variables.
+func (ex *Exec) lazyInit(g *ssa.Global) {
+	p := g.Pkg
+	if p == nil || ex.initDone[p] {
+		return
+	}
+	path := p.Pkg.Path()
+	if strings.HasPrefix(path, "github.com/google/go-tdx-guest") {
+		return // repository packages: initialised up front (RepoPkgs) or deliberately not
+	}
+	init := p.Func("init")
+	if init == nil || init.Blocks == nil || !ex.eng.transparent(init) {
+		return
+	}
+	ex.initDone[p] = true
+	saved := ex.curInstr
+	ex.callFunc(init, nil, nil, nil)
+	ex.curInstr = saved
 }
 
 func (ex *Exec) term(v Value) *smt.Term {
@@ -997,6 +1020,46 @@ func (ex *Exec) index(x, idx Value, it types.Type) Value {
 	return nil
 }
 
+// resolveKey finds the entry a (possibly symbolic) key denotes: a symbolic key is
+// compared with the map's keys one by one, forking on each comparison.
+func (ex *Exec) resolveKey(m *Map, k Value) (string, bool) {
+	symbolic := false
+	switch a := k.(type) {
+	case *Str:
+		symbolic = a.K != strConc
+	case *smt.Term:
+		symbolic = !a.IsConst()
+	}
+	if !symbolic {
+		ck := ex.mapKey(k)
+		_, ok := m.M[ck]
+		return ck, ok
+	}
+	for _, ck := range m.Keys {
+		if _, present := m.M[ck]; !present {
+			continue
+		}
+		var eq *smt.Term
+		switch a := k.(type) {
+		case *Str:
+			if !strings.HasPrefix(ck, "s:") {
+				continue
+			}
+			eq = ex.strEq(a, ex.concStr(ck[2:]))
+		case *smt.Term:
+			if !strings.HasPrefix(ck, "i:") {
+				continue
+			}
+			v, _ := new(big.Int).SetString(ck[2:], 10)
+			eq = ex.tb().Eq(a, ex.tb().ConstBig(v, a.S.W))
+		}
+		if ex.branch(eq, nil) {
+			return ck, true
+		}
+	}
+	return "", false
+}
+
 func (ex *Exec) mapKey(k Value) string {
 	switch a := k.(type) {
 	case *Str:
@@ -1022,7 +1085,9 @@ func (ex *Exec) lookup(x, idx Value, ins *ssa.Lookup) Value {
 		var v Value
 		ok := false
 		if a != nil {
-			v, ok = a.M[ex.mapKey(idx)]
+			if k, found := ex.resolveKey(a, idx); found {
+				v, ok = a.M[k]
+			}
 		}
 		if !ok {
 			v = ex.zero(ins.X.Type().Underlying().(*types.Map).Elem())
